@@ -2,6 +2,7 @@
 import re
 from mq.util import *
 from mq.prov import Prov
+from mq.facts import strip_generics
 from mq import witness
 
 EXPL = ("R07.1 the four NameStyle implementations are read as definitions generic in PREFIX: each selects the GAT parameter that "
@@ -400,4 +401,128 @@ def run(ctx):
                   "that should carry the prefix lose it whenever that condition holds" % (bad[2],) if bad else "",
                   "the un-prefixed exits depend on the item only")
     ctx.floor("R07.6", "macro name functions that read the container prefix", n6, 2)
+    # ------------------------------------------------------------------ R07.7 what is generated for one item does not depend on its siblings
+    # "exactly one item per field, under that field's inflected name": in the macro's per-item loops no token-valued variable carries a
+    # value computed for one item into the code generated for a later one (a namespace / prefix left over from the previous field). An
+    # accumulator (new value built from the old one) is not such a carrier
+    n_loops, n_vars = loop_carried(ctx, F, MAC, "R07.7",
+                                   "a namespace, prefix or name computed for one field is reused for a later field that did not set it: that field (and "
+                                   "everything flattened under it) is written under a sibling's name")
+    ctx.floor("R07.7", "per-item loops in the macro", n_loops, 10)
+    ctx.floor("R07.7", "token-valued variables assigned inside those loops", n_vars, 5)
     return EXPL
+
+
+
+TOKENISH = ("TokenStream", "proc_macro2::Ident", "syn::", "alloc::string::String", "Ts2")
+
+
+def emits_tokens(c):
+    return (c.def_ or "").startswith("quote::__private::") or c.is_trait_method("ToTokens", "to_tokens") or c.name in ("quote_into", "to_token_stream")
+
+
+def loop_carried(ctx, F, crate, rule, why, types=TOKENISH, emits=emits_tokens):
+    """report variables of `types` that are assigned inside a loop, not as a function of their own previous value, and read in a later
+    iteration on a path that does not assign them first. returns (#loops, #variables examined)"""
+    n_loops = n_vars = 0
+    okv = {}
+    for b in F.all_bodies(crate):
+        heads = [c for c in b.calls() if c.is_trait_method("Iterator", "next") and c.bb in b.reachable_after(c.bb)]
+        if not heads:
+            continue
+        defs = b.defs()
+
+        def events(i, v):
+            """ordered events on local v in block i: 'r' (read) / 'd' (whole assignment)"""
+            ev = []
+            for st in b.stmts(i):
+                if st["k"] != "assign":
+                    continue
+                rv = st["rv"]
+                ops = rv.get("ops") or [rv.get(k) for k in ("op", "a", "b") if rv.get(k) is not None]
+                rd = any((op_place(o) or {}).get("l") == v for o in ops if isinstance(o, dict)) or \
+                    (rv["k"] in ("ref", "rawptr", "discr") and rv["place"]["l"] == v)
+                if rd:
+                    ev.append("r")
+                if st["lhs"]["l"] == v and not st["lhs"].get("p"):
+                    ev.append("d")
+            t = b.term(i)
+            if t["k"] == "call":
+                if any((op_place(a) or {}).get("l") == v for a in t["args"]):
+                    ev.append("r")
+                if t.get("dest") and t["dest"]["l"] == v and not t["dest"].get("p"):
+                    ev.append("d")
+            elif t["k"] == "switch" and (op_place(t["discr"]) or {}).get("l") == v:
+                ev.append("r")
+            return ev
+
+        def slice_locals(roots):
+            seen, work = set(), list(roots)
+            while work:
+                l = work.pop()
+                if l in seen or l is None:
+                    continue
+                seen.add(l)
+                for kind, bb_, j, node in defs.get(l, []):
+                    if b.is_cleanup(bb_):
+                        continue
+                    if kind == "call":
+                        work += [(op_place(a) or {}).get("l") for a in node["args"]]
+                    elif node["k"] == "assign":
+                        rv = node["rv"]
+                        ops = rv.get("ops") or [rv.get(k) for k in ("op", "a", "b") if rv.get(k) is not None]
+                        work += [(op_place(o) or {}).get("l") for o in ops if isinstance(o, dict)]
+                        if rv["k"] in ("ref", "rawptr", "discr"):
+                            work.append(rv["place"]["l"])
+            return seen
+
+        for h in heads:
+            body = {x for x in b.reachable_after(h.bb) if h.bb in b.reachable(x) and not b.is_cleanup(x)}
+            # a loop that generates code for its items (attribute-parsing loops collect options across iterations by design)
+            if emits is not None and not any(c.bb in body and emits(c) for c in b.calls()):
+                continue
+            n_loops += 1
+            for v in range(b.arg_count + 1, len(b.locals)):
+                ty = b.local_ty(v)
+                if not b.local_name(v) or not any(k in ty for k in types) or ty.startswith("&"):
+                    continue
+                in_defs = [(kind, bb_, j, node) for kind, bb_, j, node in defs.get(v, []) if bb_ in body and
+                           ((kind == "call" and not node["dest"].get("p")) or (kind == "assign" and node["k"] == "assign" and not node["lhs"].get("p")))]
+                if not in_defs:
+                    continue
+                n_vars += 1
+                # an accumulator: every assignment inside the loop is computed from the variable's own previous value
+                feeders = []
+                for kind, bb_, j, node in in_defs:
+                    if kind == "call":
+                        feeders.append(slice_locals([(op_place(a) or {}).get("l") for a in node["args"]]))
+                    else:
+                        rv = node["rv"]
+                        ops = rv.get("ops") or [rv.get(k) for k in ("op", "a", "b") if rv.get(k) is not None]
+                        feeders.append(slice_locals([(op_place(o) or {}).get("l") for o in ops if isinstance(o, dict)] +
+                                                    ([rv["place"]["l"]] if rv["k"] in ("ref", "rawptr", "discr") else [])))
+                if all(v in f for f in feeders):
+                    continue
+                # read in a later iteration before being assigned: walk from the start of an iteration
+                seen, work, hit = set(), [h.target], None
+                while work and hit is None:
+                    x = work.pop()
+                    if x in seen or x not in body or x == h.bb:
+                        continue
+                    seen.add(x)
+                    ev = events(x, v)
+                    if ev:
+                        if ev[0] == "r":
+                            hit = x
+                        continue
+                    work += b.succ(x)
+                # ... and it must have been assigned in an earlier iteration: some in-loop assignment reaches the loop head
+                if hit is not None and any(h.bb in b.reachable_after(bb_) for _, bb_, _, _ in in_defs):
+                    ctx.bad(rule, fnkey(b) + "#no-state-carried-between-items@" + (b.local_name(v) or "_%d" % v), loc(b, hit),
+                            "variable `%s` is assigned while one item is handled and read while a later one is, on a path that does not assign it "
+                            "again: %s" % (b.local_name(v), why))
+                else:
+                    okv.setdefault((b.def_, heads.index(h)), []).append(b.local_name(v))
+    for (d, k), names in sorted(okv.items()):
+        ctx.ok(rule, strip_generics(d) + "#no-state-carried-between-items@loop%d" % k, "", "%d variable(s) assigned before they are read in every iteration: %s" % (len(names), ", ".join(sorted(set(names)))[:160]))
+    return n_loops, n_vars
